@@ -41,7 +41,7 @@ Lemma isvalid_checksum_agree : mem_s "py_isvalid_checksum" translated = true ->
 Proof.
   intros Hin m. first [untranslated Hin | clear Hin].
   all: unfold py_isvalid_checksum, isvalid_checksum.
-  all: cbn [g_len g_sub g_slice g_calc_checksum gbytes gint gnone bind g_eq pv_eq].
+  all: cbn [g_len g_sub g_slice slice_of g_calc_checksum gbytes gint gnone bind g_eq pv_eq].
   all: change (-2) with (- (2)); rewrite ?pyslice_neg_hi, ?pyslice_from_neg by lia.
   all: first [reflexivity | rewrite beq_sym; reflexivity].
 Qed.
